@@ -1,5 +1,5 @@
 (* C15 -- Gaussian intervals use a group's own calibration if big enough, else its parent. *)
-From Coq Require Import ZArith QArith List Bool String.
+From Coq Require Import ZArith QArith Qminmax List Bool String.
 From Elex Require Import Base.Frame Model.GaussAssign Proofs.GaussAssignProofs.
 Import ListNotations.
 
@@ -37,3 +37,22 @@ Example C15_example :
   option_map fst (assign 2 conf nu ["S"; "a"]%string) = Some 2%nat /\ option_map fst (assign 2 conf nu ["S"; "b"]%string) = Some 1%nat
   /\ option_map fst (assign 2 conf nu ["S"; "c"]%string) = Some 1%nat /\ option_map fst (assign 2 conf nu ["T"; "z"]%string) = Some 0%nat.
 Proof. vm_compute. auto. Qed.
+
+(* the reported bound of a group (last two steps of get_aggregate_prediction_intervals, compared with the implementation's number
+   on every run by check_reported_bound): never below the votes already counted in the group -- whatever the normal quantile --,
+   equal to the formula above when that is larger, and lower <= upper whenever the un-floored formula is ordered *)
+Theorem C15_reported_bound_floor : forall (upper : bool) (unadjusted wsum ppfv vn rest : Q),
+  (vn + rest <= reported_bound upper unadjusted wsum ppfv vn rest)%Q.
+Proof. exact reported_bound_floor. Qed.
+Print Assumptions C15_reported_bound_floor.
+
+Theorem C15_reported_bound_unfloored : forall (upper : bool) (unadjusted wsum ppfv vn rest : Q),
+  (vn <= wsum + (if upper then unadjusted + ppfv else unadjusted - ppfv))%Q ->
+  (reported_bound upper unadjusted wsum ppfv vn rest == wsum + (if upper then unadjusted + ppfv else unadjusted - ppfv) + rest)%Q.
+Proof. exact reported_bound_unfloored. Qed.
+Print Assumptions C15_reported_bound_unfloored.
+
+Theorem C15_reported_bound_ordered : forall (ul uu wsum pl pu vn rest : Q),
+  (ul - pl <= uu + pu)%Q -> (reported_bound false ul wsum pl vn rest <= reported_bound true uu wsum pu vn rest)%Q.
+Proof. exact reported_bound_ordered. Qed.
+Print Assumptions C15_reported_bound_ordered.
